@@ -5,13 +5,13 @@ import json, os, re, sys
 ROOT = os.path.dirname(os.path.dirname(os.path.abspath(__file__)))
 last = {}
 for l in open(sys.argv[1]):
-    m = re.match(r"(C\d\d-m\d) exit=(\d+) violations=(\d+) undecided=(\d+) :: (.*)", l)
+    m = re.match(r"(C\d\d-m\d+) exit=(\d+) violations=(\d+) undecided=(\d+) :: (.*)", l)
     if m:
         last[m.group(1)] = (int(m.group(2)), int(m.group(3)), int(m.group(4)), m.group(5).strip())
-    m = re.match(r"(C\d\d-m\d) (patch-does-not-apply|worktree-failed)", l)
+    m = re.match(r"(C\d\d-m\d+) (patch-does-not-apply|worktree-failed)", l)
     if m:
         last[m.group(1)] = (None, 0, 0, m.group(2))
-ids = sorted(d for d in os.listdir(os.path.join(ROOT, "seeded")) if re.fullmatch(r"C\d\d-m\d", d))
+ids = sorted(d for d in os.listdir(os.path.join(ROOT, "seeded")) if re.fullmatch(r"C\d\d-m\d+", d))
 rows, ndet = [], 0
 for sid in ids:
     mp = os.path.join(ROOT, "seeded", sid, "meta.json")
@@ -39,10 +39,11 @@ with open(os.path.join(ROOT, "seeded", "RESULTS.md"), "w") as f:
     f.write("# Seeded faults: which check catches which change\n\n")
     f.write("Each fault was written by an independent sub-agent from the property text alone (round 1: m1, m2; round 2: m3-m5, steered towards other\n"
             "mechanisms and towards inputs larger or more specific than a tiny exhaustive test; round 3: m6, m7, code the property depends on indirectly and\n"
-            "faults that corrupt state for a later operation; round 4: m8, m9, subtle slips in the core functions the property names), confirmed by the builder in a scratch worktree (demo passes\n"
+            "faults that corrupt state for a later operation; round 4: m8, m9, subtle slips in the core functions the property names; round 5: m10, faults a verifier is least likely to have enumerated), confirmed by the builder in a scratch worktree (demo passes\n"
             "pristine, fails mutated, test-suite failing set unchanged) and then run through `tools/run_seeded.sh <id>` (quick tier).\n\n")
-    f.write("Detected: %d of %d.  Not detected: C06-m2 (obsolete: its line was rewritten by fix 02a7be4, the patch no longer applies) and C07-m7 (single-key\n"
-            "np.lexsort on encoded arrays not stable: sorting is not among the operations the C07 statement lists, not claimed).  Caught by a named engine-P\n"
+    f.write("Detected: %d of %d.  Not detected: C06-m2 (obsolete: its line was rewritten by fix 02a7be4, the patch no longer applies), C07-m7 (single-key\n"
+            "np.lexsort on encoded arrays not stable: sorting is not among the operations the C07 statement lists, not claimed) and C09-m10 (get_track shares the\n"
+            "caller's value column: shows only when the caller edits its bedGraph afterwards; the statement is about the array at construction, not claimed).  Caught by a named engine-P\n"
             "obligation (often in addition to a bounded signature): %d.\n\n" % (ndet, len(ids), sum(1 for r in rows if "engine P" in r)))
     f.write("| id | round | result | caught by | change | first VIOLATION lines |\n|---|---|---|---|---|---|\n")
     f.write("\n".join(rows) + "\n")
